@@ -443,10 +443,10 @@ def o0_container_jobs(tier):
       "state) executed on an ASan+UBSan build with -fno-builtin (memcpy overlap is checked), all caller data in exactly-sized "
       "heap blocks; oracle: zero sanitizer reports on any transition, live-block ledger (--wrap of malloc/calloc/realloc/"
       "strdup/free) back to its start value after free() of the container at the end of every replayed history, static hash "
-      "table region exactly sized and fenced by guard zones; qhashtbl copying scans with a removal after the 1st/2nd/3rd element (documented as allowed); the searches run once more at smaller bounds in an unoptimised, "
+      "table region exactly sized and fenced by guard zones; qhashtbl copying scans with a removal after the 1st/2nd/3rd element and the qtreetbl remove-and-rewind loop (both documented as allowed); the searches run once more at smaller bounds in an unoptimised, "
       "uninstrumented build with the stack filled with 0xA5 before every case (uninitialised automatic variables)",
       ["UBSan alignment and nonnull-attribute checks are disabled (MurmurHash3 word loads; memcpy(p, NULL, 0) idiom)"],
-      [need("states", 10000), forbid("replay_divergence")], classes=["asan:*", "leak:*", "guard:*", "scanrm:*"])
+      [need("states", 10000), forbid("replay_divergence")], classes=["asan:*", "leak:*", "guard:*", "scanrm:*", "walkrm:*"])
 def c11(tier, seed):
     return all_container_jobs(tier) + o0_container_jobs(tier)
 
